@@ -25,7 +25,8 @@ SECRET_NAMES = ['secret', 'secret_key', 'my_secret', 'db_secret_pw', 'apisecretk
                 'n' * 66 + '_secret', 'very_long_' * 9 + 'secret_at_the_end', 'secret' + '_padding' * 12]
 PLAIN_NAMES = ['token_ttl', 'db_url', 'debug', 'name', 'greeting', 'limits', 'weird <i>name</i>', 'page_title', '_meta_start_time',
                'script_root_other', 'resources', 'exc_content', 'SECRET_UPPER_IS_NOT_secretive'.replace('secret', 'zzz')]
-VALUE_KINDS = ['str', 'bytes', 'number', 'list', 'dict', 'object', 'nested', 'longstr']
+VALUE_KINDS = ['str', 'bytes', 'number', 'list', 'dict', 'object', 'nested', 'longstr', 'tuple0', 'tuple1', 'tuple2', 'tuple2', 'namedtuple',
+               'percent']
 COOKIE_KEY = b'C00KIE-SIGNING-KEY-7781'
 ROUTE_KINDS = ['function', 'lambda', 'method', 'callable', 'static', 'classmethod', 'decorated']
 
@@ -74,6 +75,23 @@ class BadReprQuoting(object):
         raise ValueError('invalid literal for int() with base 16: %r' % self.text)
 
 
+class BadReprSurrogate(object):
+    """repr() fails with a message no UTF-8 encoder accepts (an os.fsdecode()d file name in it)"""
+    def __repr__(self):
+        raise OSError(2, 'No such file or directory', 'caf\udce9.conf')
+
+
+class _Unprintable(Exception):
+    def __str__(self):
+        raise RuntimeError('even describing this error fails')
+
+
+class BadReprBadStr(object):
+    """repr() fails with an exception whose own str() fails"""
+    def __repr__(self):
+        raise _Unprintable()
+
+
 class BadReprHTTP(object):
     """repr() fails with an exception that happens to be an HTTP error class"""
     def __repr__(self):
@@ -104,6 +122,21 @@ def make_value(kind, marker):
         return BadReprHTTP()
     if kind == 'badrepr-quoting':
         return BadReprQuoting(marker)
+    if kind == 'badrepr-surrogate':
+        return BadReprSurrogate()
+    if kind == 'badrepr-badstr':
+        return BadReprBadStr()
+    if kind == 'tuple0':
+        return ()
+    if kind == 'tuple1':
+        return (marker,)
+    if kind == 'tuple2':
+        return (marker, 2)
+    if kind == 'namedtuple':
+        import collections
+        return collections.namedtuple('Limits', 'label n')(marker, 3)
+    if kind == 'percent':
+        return '100%s %(x)d ' + marker
     raise InvalidPlan('unknown value kind')
 
 
@@ -135,7 +168,7 @@ class C18(Check):
     level_text = ('Single host-call faults are enumerated completely (every call site x every documented exception and unusual '
                   'value, both views) on a fixed host; host applications and multi-fault plans are sampled.')
     level_note = 'Trusted: the catalogue of what each host call can raise/return (sim/core/hoststub.py).'
-    required_probes = ('secret-resource-with-failing-repr', 'host-context-names-clash-with-meta-working-names', 'sibling-section-cannot-be-computed', 'host-shares-middleware-type-with-meta', 'secret-redacted-html', 'secret-redacted-json', 'fault-fired-page-200', 'all-calls-failing', 'depth-2',
+    required_probes = ('tuple-valued-resource', 'secret-resource-with-failing-repr', 'host-context-names-clash-with-meta-working-names', 'sibling-section-cannot-be-computed', 'host-shares-middleware-type-with-meta', 'secret-redacted-html', 'secret-redacted-json', 'fault-fired-page-200', 'all-calls-failing', 'depth-2',
                        'plain-visible', 'bad-repr-section-inline', 'cookie-mw-present')
 
     # ---- generation --------------------------------------------------------
@@ -147,7 +180,7 @@ class C18(Check):
             for n in names[:nmax]:
                 kind = rng.choice(VALUE_KINDS)
                 if n in PLAIN_NAMES and rng.random() < 0.15:
-                    kind = rng.choice(['badrepr', 'badrepr-http', 'badrepr-quoting'])
+                    kind = rng.choice(['badrepr', 'badrepr-http', 'badrepr-quoting', 'badrepr-surrogate', 'badrepr-badstr'])
                 elif n in SECRET_NAMES and rng.random() < 0.2:
                     # a secret whose repr() would fail: nobody has any business calling it
                     kind = rng.choice(['badrepr', 'badrepr-quoting', 'badrepr-quoting'])
@@ -359,8 +392,14 @@ class C18(Check):
                     if '[REDACTED]' not in body:
                         return ('secret-not-marked-redacted', 'no redaction marker on the page')
                     res.probe('secret-redacted-html')
+            elif kind == 'tuple0':
+                if table is not None and table.get(name) != '()':
+                    return ('plain-resource-hidden', 'resource %r (an empty tuple) shows %r' % (name, table.get(name)))
+                res.probe('plain-visible')
             elif not kind.startswith('badrepr'):
                 marker = marker_forms(kind, marker)[0]
+                if kind.startswith('tuple') or kind == 'namedtuple':
+                    res.probe('tuple-valued-resource')
                 if table is not None:
                     if name not in table or marker[:40] not in table[name]:
                         return ('plain-resource-hidden', 'resource %r shows %r, expected its repr' % (name, table.get(name)))
